@@ -41,7 +41,7 @@ func (P *Prog) numericCoercers() map[*ssa.Function]string {
 			}
 			owner := P.fieldOwner(f)
 			switch {
-			case owner != nil && owner.Obj().Name() == "NumberSchema" && f.Name() == "coercer":
+			case owner != nil && owner.Obj().Name() == "NumberSchema" && P.roleName(f) == "coercer":
 				out[originOf(target)] = "NumberSchema.coercer set in " + fname(fn)
 			case f.Name() == "Int" || f.Name() == "Float64":
 				if g, ok := base.(*ssa.Global); ok && strings.Contains(g.Name(), "Coercers") {
